@@ -157,13 +157,12 @@ func init() {
 			{Harness: "vhC15Long", Params: P("LONGMAX", 5000)},
 			{Harness: "vhC02", Params: P("CALLS", 2, "N", 2, "MSGS", 1, "RETRY", 2), Covers: []string{"C02/some-data-event"}},
 			{Harness: "vhC02", Params: P("CALLS", 1, "N", 3, "MSGS", 1, "RETRY", 0), Covers: []string{"C02/some-data-event"}},
-			{Harness: "vhC02", Params: P("CALLS", 1, "N", 1, "MSGS", 2, "RETRY", 2), Covers: []string{"C02/some-data-event"}},
 			{Harness: "vhC15Retry", Params: P("RFULL", 1), Solver: "cvc5-int"},
 		},
 		Labels: []string{"C02/", "C15/retry/", "C15/long/", "C01/SmallBuf", "C19/Clone"},
 		Bounds: map[string]string{
 			"quick":    "1 message with <=2 Append calls of strings <=1 byte or 1 call <=2 bytes, optional ID/type of the same bound, Retry boundary values; 2 concatenated messages with 1 call, strings <=1 byte; all 256 values per byte (CR, LF, colon, space, NUL, BOM bytes included)",
-			"thorough": "1 message: 2 calls <=2 bytes, 1 call <=3 bytes; 2 messages with Retry boundary values; retry field for every int64 duration",
+			"thorough": "quick plus: 1 message: 2 calls <=2 bytes, 1 call <=3 bytes; retry field for every int64 duration; one line of every length <=5000",
 		},
 		Outside: []string{"longer strings", "more than 2 concatenated messages except through the lemma 'every non-empty wire form ends in exactly one blank line, has no inner blank line and no CR' (asserted)"},
 		Oracle:  "independent WHATWG interpreter in browser mode (dispatch only on non-empty data buffer) and go-sse's own Read over the concatenated wire forms: one event per message with data, Data = LF-join of the independently split lines of the appended strings, Type and most recent NUL-free ID as set",
@@ -220,11 +219,11 @@ func init() {
 		return r
 	}
 	checks["C20"] = &propCheck{
-		ID: "C20", Quick: c20([]int{2, 3, 4}, 5, 1), Thorough: append(c20([]int{5}, 6, 1), c20([]int{8}, 8, 0)...),
+		ID: "C20", Quick: c20([]int{2, 3, 4}, 5, 1), Thorough: append(c20([]int{5}, 6, 1), c20([]int{6}, 8, 0)...),
 		Labels: []string{"C20/", "C01/SmallBuf", "panic:"},
 		Bounds: map[string]string{
 			"quick":    "limit L in {2,3,4} through ReadConfig.MaxEventSize and through Connection.Buffer(buf, L) with an initial buffer of every capacity 0..L+1 (or nil); every stream <=5 bytes (all byte values), every segmentation into read chunks; the real bufio.Scanner buffer growth/compaction logic runs with these small numbers",
-			"thorough": "quick plus: L = 5 with streams <=6 bytes and all segmentations; L = 8 with streams <=8 bytes in one chunk",
+			"thorough": "quick plus: L = 5 with streams <=6 bytes and all segmentations; L = 6 with streams <=8 bytes in one chunk",
 		},
 		Outside: []string{"the default 4 KiB start and 64 KiB limit themselves (same scanner code with larger constants - not decided here)", "allocation failure"},
 		Oracle:  "independent tokenisation of the stream (blank lines + event + terminating blank line): a token longer than the effective limit max(L, cap(buf)) must yield bufio.ErrTooLong after exactly the events of the earlier tokens and at most limit bytes read beyond the last completed token; if every token is smaller than the limit, no ErrTooLong and the events equal the WHATWG oracle's; at the boundary either, but never a truncated or altered event; no Go panic on any path",
